@@ -601,6 +601,32 @@ func checkC07(r *Run) {
 			}
 		}
 	})
+	// blocks that contain every known header type once plus one generic header: every rotation of the type order x every
+	// position of the generic header (first-of-type slots and the flag set when all types are present)
+	known := []string{"From", "t", "Call-ID", "CSeq", "v", "Max-Forwards", "l", "Contact", "Expires", "User-Agent", "Record-Route", "Route", "P-Asserted-Identity"}
+	parallelFor(r, len(known)*(len(known)+1), func(c *enumCtx, idx int) {
+		rot, gpos := idx/(len(known)+1), idx%(len(known)+1)
+		var cs c07Case
+		vf := c07ValForms[2]
+		for i := 0; i <= len(known); i++ {
+			if i == gpos {
+				cs.Lines = append(cs.Lines, hdrLineSpec{"X-Generic", "", vf.Text, "\r\n"})
+				cs.VF = append(cs.VF, vf)
+			}
+			if i < len(known) {
+				cs.Lines = append(cs.Lines, hdrLineSpec{known[(i+rot)%len(known)], "", vf.Text, "\r\n"})
+				cs.VF = append(cs.VF, vf)
+			}
+		}
+		cs.Blank = "\r\n"
+		for _, cp := range []int{-1, 0, 13, 14, 20} {
+			cs.Cap = cp
+			runCase(c, &cs)
+			cc := cs
+			cc.WithVal, cc.NilMask = true, 0xff
+			runCase(c, &cc)
+		}
+	})
 	// 60-line blocks per terminator
 	for ti, t := range terms {
 		var cs c07Case
